@@ -231,17 +231,19 @@ func (t token) String() string {
 
 // lexer holds the state of the scanner.
 type lexer struct {
-	input  string     // the string being scanned.
-	start  int        // start position of this token.
-	pos    int        // current position in the input.
-	width  int        // width of last rune read from input.
-	tokens chan token // channel of scanned tokens.
+	input  string        // the string being scanned.
+	start  int           // start position of this token.
+	pos    int           // current position in the input.
+	width  int           // width of last rune read from input.
+	tokens chan token    // channel of scanned tokens.
+	done   chan struct{} // closed when the client stops reading tokens.
 }
 
 func lex(input string) *lexer {
 	l := &lexer{
 		input:  input,
 		tokens: make(chan token),
+		done:   make(chan struct{}),
 	}
 
 	go l.run()
@@ -259,8 +261,22 @@ func (l *lexer) run() {
 
 // emit passes an token back to the client.
 func (l *lexer) emit(t TokenType) {
-	l.tokens <- token{t, l.start, l.current()}
+	l.send(token{t, l.start, l.current()})
 	l.start = l.pos
+}
+
+// send passes a token to the client unless the client has stopped reading tokens.
+func (l *lexer) send(t token) {
+	select {
+	case l.tokens <- t:
+	case <-l.done:
+	}
+}
+
+// stop tells the lexer that no more tokens will be read,
+// so that its goroutine does not block forever on sending the next token.
+func (l *lexer) stop() {
+	close(l.done)
 }
 
 // nextToken returns the next token from the input.
@@ -292,7 +308,7 @@ func (l *lexer) next() (r rune) {
 // errorf returns an error token and terminates the scan by passing
 // back a nil pointer that will be the next state, terminating l.nextToken.
 func (l *lexer) errorf(format string, args ...interface{}) stateFn {
-	l.tokens <- token{TokenError, l.start, fmt.Sprintf(format, args...)}
+	l.send(token{TokenError, l.start, fmt.Sprintf(format, args...)})
 	return nil
 }
 
